@@ -13,8 +13,8 @@ func init() {
 		Explanation: "Decides on timing/parallelengine.go: determineWhatToRun selects a primary round iff t_primary <= t_secondary and sets the clock to that class's earliest time; " +
 			"runEventsUntilConflict's inner body pops and runs an event iff its time equals now, panics for an earlier one and stops the queue for a later one, returning every queue to its channel exactly once; " +
 			"every goroutine start is preceded by waitGroup.Add(1), the worker calls Handle exactly once and then Done; runRound checks out the selected class's queues, dispatches, and waits on the WaitGroup before returning; " +
-			"Run re-selects only after runRound returned; Schedule rejects past events and pushes exactly once into a queue of the event's class which it returns to the same channel.",
-		NotDecided:  "behaviour under the Go scheduler's interleavings and the memory model (needs a race detector or model checker: other technique families); the heap itself (C01).",
+			"Run re-selects only after runRound returned; Schedule rejects past events and pushes exactly once into a queue of the event's class which it returns to the same channel; (push-shape, pop-shape) the per-worker heap (EventQueueImpl) appends, stamps and sifts the last slot up on every Push and sifts the stored slice down on every pop, so the root each round reads is the earliest event.",
+		NotDecided:  "behaviour under the Go scheduler's interleavings and the memory model (needs a race detector or model checker: other technique families); the (time, seq) comparison of the heap (C01).",
 		Assumptions: []string{"sync.WaitGroup and channel semantics as documented", "readNow/earliestTimeInQueueGroup/Len/Peek/Time are state-reading"},
 	}, runC04)
 	register("C05", PropertyMeta{
@@ -42,6 +42,13 @@ func runC04(c *Ctx) {
 	readNow := p.LookupFunc("timing", "ParallelEngine", "readNow")
 	writeNow := p.LookupFunc("timing", "ParallelEngine", "writeNow")
 	pure := func(f *types.Func) bool { return f == earliest || f == readNow }
+
+	// the per-worker heaps are EventQueueImpl: the round time is the root of each
+	// heap, so heap order (sift after every push, sift after every pop) is what
+	// "no event starts while an earlier one is pending" rests on
+	pushShapeRule(c, dom, []string{"EventQueueImpl"})
+	c.Floor("push-shape", 1)
+	popShapeRule(c)
 
 	// determineWhatToRun
 	if f := c.fn("round-selection", "timing", "ParallelEngine", "determineWhatToRun"); f != nil {
